@@ -14,7 +14,7 @@ Tag(cond, t) == IF cond THEN <<>> ELSE <<t>>
 
 SumSeq(s) == FoldLeft(LAMBDA a, i : a + s[i], 0, [i \in 1..Len(s) |-> i])
 StreamFails(e) ==
-  LET wf == \A i \in 1..Len(e.cmds) : WellFormed(e.pkg, e.dir, e.cmds[i]) IN
+  LET wf == \A i \in 1..Len(e.cmds) : WellFormed(e.pkg, e.dir, e.cmds[i]) /\ Constructible(e.pkg, e.dir, e.cmds[i]) IN
   Tag(e.err # "panic", "C18.nopanic")
   \o (IF ~wf THEN <<>>
       ELSE IF e.err # "" THEN <<"C18.accept">>
@@ -23,6 +23,12 @@ StreamFails(e) ==
            \o Tag(Len(e.sizes) = Len(e.cmds) /\ \A i \in 1..Len(e.cmds) : e.sizes[i] = Len(ACmdBytes(e.pkg, e.dir, e.cmds[i])) /\ Len(e.bytes) = SumSeq(e.sizes), "C18.size")
            \o Tag(e.derr = "" /\ e.intact /\ e.back = e.cmds, "C18.roundtrip")
            \o Tag(LET d == ADecodeStream(e.pkg, e.dir, exp) IN d.ok /\ d.cmds = e.cmds, "C18.specroundtrip"))
+
+\* decode direction: the specification's bytes of a well-formed sequence decode to that sequence
+DecFails(e) ==
+  LET wf == \A i \in 1..Len(e.cmds) : WellFormed(e.pkg, e.dir, e.cmds[i]) IN
+  IF ~wf \/ e.bytes # AStreamBytes(e.pkg, e.dir, e.cmds) THEN <<>>
+  ELSE Tag(e.derr # "panic", "C18.nopanic") \o Tag(e.derr = "" /\ e.intact /\ e.back = e.cmds, "C18.roundtrip")
 
 McKeyFails(e) ==
   LET exp == CASE e.kind = "rootGenAppKey" -> AESEnc(e["in"], McBlock(0, <<>>))
@@ -33,6 +39,7 @@ McKeyFails(e) ==
   IN  Tag(e.err = "" /\ e.out = exp, "C18.mckey")
 
 Fails(e) == CASE e.ev = "alstream" -> StreamFails(e)
+              [] e.ev = "aldec" -> DecFails(e)
               [] e.ev = "mckey" -> McKeyFails(e)
               [] OTHER -> <<"unknown-event">>
 Init == l = 1 /\ nfail = 0
